@@ -206,11 +206,12 @@ def run(tier, seed, which=("ind", "pop")):
             modelm, statem, dsm, dfm = make_model_state("mixture_logistic", dict(n_clusters=2, source_dimension=1, dimension=3), 3, seed=seed + 31)
             algom = make_algo(modelm, statem, dsm, seed)
             torch.manual_seed(seed + 31)
-            for sweep in range(2 if tier == "quick" else 6):
+            for sweep in range(3 if tier == "quick" else 8):
+                beta_m = [1.0, 0.125, 0.4][sweep % 3]        # also under tempering: the temperature weights the change of regularity only
                 for name, sampler in algom.samplers.items():
                     if type(sampler).__name__ == "IndividualGibbsSampler":
-                        ctx = dict(model="mixture_logistic", hyper="2 clusters", variable=name, sweep=sweep, beta=1.0, seed=seed + 31, sampler="IndividualGibbsSampler")
-                        e = check_individual_step(statem, sampler, 1.0, violations, ctx)
+                        ctx = dict(model="mixture_logistic", hyper="2 clusters", variable=name, sweep=sweep, beta=beta_m, seed=seed + 31, sampler="IndividualGibbsSampler")
+                        e = check_individual_step(statem, sampler, beta_m, violations, ctx)
                         evals += e
                         if e:
                             distinct.add(("mixture", name, sweep))
